@@ -296,3 +296,27 @@ impl<S: FileSystem> Module<S> {
         Ok((str_interner, file_manager, symtab))
     }
 }
+
+// Read-only accessors used by the verification harness (built only with `--cfg az65_verif`).
+#[cfg(az65_verif)]
+impl<S> Module<S> {
+    /// (kind, offset, len) of every pending link, in link order.
+    /// kind: 0 = byte, 1 = signed byte, 2 = word, 3 = space, 4 = assert (offset = len = 0)
+    pub fn verif_links(&self) -> Vec<(u8, usize, usize)> {
+        self.links
+            .iter()
+            .map(|link| match link {
+                Link::Byte { offset, .. } => (0, *offset, 1),
+                Link::SignedByte { offset, .. } => (1, *offset, 1),
+                Link::Word { offset, .. } => (2, *offset, 2),
+                Link::Space { offset, len, .. } => (3, *offset, *len),
+                Link::Assert { .. } => (4, 0, 0),
+            })
+            .collect()
+    }
+
+    /// the image before any link has been applied
+    pub fn verif_data(&self) -> &[u8] {
+        &self.data
+    }
+}
